@@ -24,7 +24,7 @@ THEOREMS = [
 ]
 RULE = (
     "operation histories over {tick, create, get, update activity, delete, cleanup(max_age), list+mutate, clear, "
-    "count, handle initialize (requested version supported / unsupported / malformed / empty / non-string / absent), handle request with session id} on the real SessionManager/ProtocolHandler with "
+    "count, cleanup with the default limit, handle initialize (requested version supported / unsupported / malformed / empty / non-string / absent), handle request with session id (successful / unknown method / failing handler / nonsense / notification / no method; live, never-issued, empty and format-hostile session ids)} on the real SessionManager/ProtocolHandler with "
     "time.time patched to an integer clock: every word of length<=5 (quick) / <=6 (thorough) over the 8-symbol alphabet "
     "on slot 0, <=4 / <=5 over the 10-symbol one, <=3 / <=4 over the 20-symbol alphabet on slots 0..2, every word of "
     "length<=8 over the 5-symbol expiry core (thorough), plus seeded histories of length<=200; each step's output and the full store "
@@ -39,7 +39,8 @@ TRUSTED = [
 ASSUMPTIONS = [
     "time.time() does not advance between the reads made inside one operation (the patched clock only moves between operations)",
     "what is recorded as client info when initialize carries no clientInfo is not fixed by the property (masked on both sides)",
-    "whether dispatch updates the activity of the carried session id is modelled (it does) but not demanded by the oracle, which only demands that dispatch changes nothing else",
+    "a REQUEST dispatched with a live session id is activity of that session whatever its outcome (result, unknown method, failing or nonsensical handler, initialize): the oracle demands last-activity = now ('expiry removes exactly the sessions idle for longer than the limit' — a session that has just been used is not idle); for notifications and method-less messages with a session id the property is silent: the old or the new stamp are both accepted (the model, like the code, refreshes for every message that has a method)",
+    "cleanup_expired() without argument is compared with cleanup_expired(d), d being the default read from the signature at run time; a non-numeric default is not compared; fractional limits are checked against the reference dict only (the Lean model is integer-valued)",
     "initialize is driven with requested versions of every kind (supported, unsupported, malformed, empty, non-string, absent); WHICH version is answered is C04's subject — the oracle takes the answered version from the response (result.protocolVersion) and demands that the session records exactly that; the model is fed the observed answer policy (requested -> answered) as its `answer` function",
 ]
 
@@ -56,7 +57,9 @@ C = ["C", {"name": "c", "version": "1"}, "2025-06-18"]
 I = ["I", None, {"client": {"name": "i"}, "version": "1999-01-01"}, 1]
 L = ["L", "both"]
 K = ["K"]
-A8 = [T1, C, I, ["U", 0], ["D", 0], ["X", 1], L, ["R", 0, "ping", 7]]
+# the request symbol of the small alphabets ends on an error path (its handler raises): dispatch with a
+# session id is activity whatever the outcome; the 20-symbol alphabet has the successful / unknown / notification ones
+A8 = [T1, C, I, ["U", 0], ["D", 0], ["X", 1], L, ["R", 0, "verif/raises", 7]]
 A10 = A8 + [["G", 0], K]
 A20 = [
     T1, C, I, L, K, ["N"], ["X", 0], ["X", 1],
@@ -84,6 +87,14 @@ def rand_json(rng, depth=0):
     return [rand_json(rng, depth + 1) for _ in range(rng.randint(0, 3))]
 
 
+FALSY_AND_HOSTILE = [None, {}, [], "", 0, False, "%s %d", "{0} {}", "a\nb\r\nc", "\u2028", "'\"\\", "clientInfo",
+                     "protocolVersion", "2025-03-26", 3600, {"name": "", "version": 0}, {"": None}]
+R_METHODS = [("ping", 3), ("ping", 0), ("ping", ""), ("nosuch/method", "x"), ("nosuch/method", 0), ("verif/raises", 1),
+             ("verif/raises-empty", ""), ("verif/nonsense", 2), ("verif/silent", 5), ("verif/answers", 0),
+             ("tools/list", 9), ("notifications/initialized", None), ("notifications/cancelled", None),
+             ("verif/raises", None), ("notifications/initialized", 4), (None, 1), ("", 1)]
+
+
 def seeded(rng, maxlen):
     n = rng.choice([rng.randint(1, 12), rng.randint(5, 40), rng.randint(20, maxlen)])
     ops = []
@@ -93,7 +104,7 @@ def seeded(rng, maxlen):
     def ref():
         r = rng.random()
         if issued == 0 or r < 0.08:
-            return rng.choice([-1, issued, issued + 3])
+            return rng.choice([-1, issued, issued + 3] + H.GHOSTS[:6])
         if r < 0.6:
             return max(0, issued - 1 - rng.randint(0, min(2, issued - 1)))
         return rng.randrange(issued)
@@ -101,10 +112,13 @@ def seeded(rng, maxlen):
     for _ in range(n):
         r = rng.random()
         if r < 0.16:
-            ops.append(["T", rng.choice([0, 1, 1, 1, 2, horizon, horizon + 1, max(horizon - 1, 0)])])
+            ops.append(["T", rng.choice([0, 1, 1, 1, 2, horizon, horizon + 1, max(horizon - 1, 0), 3599, 3600, 3601])])
         elif r < 0.30:
-            ops.append(["C", rng.choice([{"name": "c%d" % issued, "version": "1.0"}, {}, rand_json(rng)]),
-                        rng.choice(SUPPORTED + ["9999-01-01", "", "v"])])
+            op = ["C", rng.choice([{"name": "c%d" % issued, "version": "1.0"}, {}, rand_json(rng), rng.choice(FALSY_AND_HOSTILE)]),
+                  rng.choice(SUPPORTED + ["9999-01-01", "", "v", "%s", "{}"])]
+            if rng.random() < 0.25:
+                op.append(rng.choice([None, {}, {"k": 0}, {"": []}]))
+            ops.append(op)
             issued += 1
         elif r < 0.38:
             spec = {}
@@ -113,7 +127,10 @@ def seeded(rng, maxlen):
                 spec["noparams"] = True
             else:
                 if q < 0.85:
-                    spec["client"] = rng.choice([{"name": "i%d" % issued, "version": "2"}, {}, None, rand_json(rng)])
+                    spec["client"] = rng.choice([{"name": "i%d" % issued, "version": "2"}, {}, None, rand_json(rng),
+                                                 rng.choice(FALSY_AND_HOSTILE)])
+                if rng.random() < 0.3:
+                    spec["reuse"] = True
                 if rng.random() < 0.85:
                     spec["version"] = rng.choice(SUPPORTED) if rng.random() < 0.45 else rng.choice(ODD_VERSIONS)
             ops.append(["I", rng.choice([None, None, ref()]), spec, rng.choice([0, 1, -5, "", "abc", "7"])])
@@ -125,7 +142,7 @@ def seeded(rng, maxlen):
         elif r < 0.68:
             ops.append(["D", ref()])
         elif r < 0.80:
-            ops.append(["X", rng.choice([0, 1, 2, horizon, horizon - 1, horizon + 1, -1, 3600])])
+            ops.append(["X", rng.choice([0, 1, 2, horizon, horizon - 1, horizon + 1, -1, 3600, 3599, None, None, 0.0, 0.5, 1.5])])
         elif r < 0.86:
             ops.append(["L", rng.choice(["add", "pop", "clear", "both", "none"])])
         elif r < 0.88:
@@ -133,8 +150,8 @@ def seeded(rng, maxlen):
         elif r < 0.91:
             ops.append(["N"])
         else:
-            m = rng.choice([("ping", 3), ("ping", 0), ("ping", ""), ("nosuch/method", "x"), ("notifications/initialized", None)])
-            ops.append(["R", rng.choice([None, ref(), ref()]), m[0], m[1]])
+            m = rng.choice(R_METHODS)
+            ops.append(["R", rng.choice([None, ref(), ref(), ref()]), m[0], m[1]])
     return {"ops": ops}
 
 
@@ -147,7 +164,7 @@ def _same(a, b):
 
 
 KEY_OF = {"C": "create", "G": "lookup", "U": "update-activity", "D": "delete", "X": "expiry", "L": "listing-copy",
-          "K": "clear", "N": "count", "I": "initialize", "R": "dispatch", "T": "tick"}
+          "K": "clear", "N": "count", "I": "initialize", "R": "activity-on-dispatch", "T": "tick"}
 
 
 def reference_check(case, obs):
@@ -157,6 +174,7 @@ def reference_check(case, obs):
         code, now, out = op[0], st["now"], st["out"]
         want_out = None
         lenient_last = None  # session whose last-activity may be old or now
+        must_touch = None  # session whose last-activity must be now
         if code == "C":
             if not st["fresh"]:
                 return ("id-not-unique", f"step {n}: create_session returned an id that was handed out before", {"fresh": True})
@@ -171,7 +189,10 @@ def reference_check(case, obs):
             want_out = ["flag", op[1] in ref]
             ref.pop(op[1], None)
         elif code == "X":
-            gone = [k for k, r in ref.items() if now - r[3] > op[1]]
+            limit = st.get("default") if op[1] is None else op[1]
+            if not isinstance(limit, (int, float)) or isinstance(limit, bool):
+                return None  # the default limit is not readable from the signature: nothing to compare the rest with
+            gone = [k for k, r in ref.items() if now - r[3] > limit]
             for k in gone:
                 del ref[k]
             want_out = ["count", len(gone)]
@@ -196,12 +217,20 @@ def reference_check(case, obs):
                 spec = op[2]
                 client = spec["client"] if ("client" in spec and not spec.get("noparams")) else (got[1] if got else None)
                 ref[out[1]] = [client, out[2], now, now]
-                lenient_last = op[1]
+                must_touch = op[1]
             else:
                 return None  # an unsuccessful initialize is outside this property (C08)
         elif code == "R":
-            lenient_last = op[1]
-        if lenient_last is not None and lenient_last in ref and code in ("I", "R"):
+            # a REQUEST dispatched with a session id is activity of that session whatever its outcome (result, unknown
+            # method, failing handler): "expiry removes exactly the sessions idle for longer than the limit".  For
+            # notifications and method-less messages the property is silent: old or new stamp are both accepted.
+            if op[3] is not None and isinstance(op[2], str) and op[2] != "":
+                must_touch = op[1]
+            else:
+                lenient_last = op[1]
+        if must_touch is not None and not isinstance(must_touch, str) and must_touch in ref:
+            ref[must_touch][3] = now
+        if lenient_last is not None and not isinstance(lenient_last, str) and lenient_last in ref:
             got = next((r for r in st["snap"]["sessions"] if r[0] == lenient_last), None)
             if got is not None and got[4] == now:
                 ref[lenient_last][3] = now
@@ -228,6 +257,28 @@ class Histories(Suite):
             out.append({"ops": [["I", None, spec, 1], ["G", 0], ["L", "none"]]})
             out.append({"ops": [C, T1, ["I", 0, spec, "i"], ["G", 1], ["U", 1], T1, ["X", 1], ["G", 1]]})
             out.append({"ops": [["I", None, dict(spec, version=SUPPORTED[1]), 0], ["I", 0, spec, ""], ["G", 1], ["G", 0]]})
+        # directed: dispatch with a session id, one per outcome (result, unknown method, failing handler, handler
+        # returning nonsense / nothing, notifications, no method), placed so that only the dispatch keeps the session alive
+        for me, mid in R_METHODS:
+            out.append({"ops": [C, T1, ["R", 0, me, mid], T1, ["X", 1], ["G", 0], ["N"]]})
+            out.append({"ops": [I, C, T1, ["R", 1, me, mid], ["R", 0, me, mid], T1, T1, ["X", 2], ["L", "none"]]})
+        # directed: cleanup_expired() without argument = with its signature default, around that default
+        for dt in (3599, 3600, 3601, 0):
+            out.append({"ops": [C, ["T", dt], ["X", None], ["G", 0], C, ["X", 0], ["X", None]]})
+            out.append({"ops": [C, ["T", dt], ["U", 0], ["T", 3600], ["X", None], ["T", 1], ["X", None], ["N"]]})
+        # directed: falsy / format-hostile / look-alike values in every caller-supplied position
+        for v in FALSY_AND_HOSTILE:
+            out.append({"ops": [["C", v, "2025-06-18"], ["G", 0], ["I", None, {"client": v, "version": "2025-06-18"}, 0], ["G", 1],
+                                ["C", {"name": "m"}, "2025-03-26", v if isinstance(v, dict) or v is None else {"k": v}], ["L", "both"]]})
+        for g in H.GHOSTS:
+            out.append({"ops": [C, ["G", g], ["U", g], ["D", g], ["R", g, "ping", 0], ["I", g, {"client": {}}, ""], ["N"], ["G", 0]]})
+        for a in (0, 0.0, 0.5, 1, 1.5, -1, -0.5):
+            out.append({"ops": [C, ["X", a], T1, ["U", 0], ["X", a], T1, ["X", a], ["T", 1], ["X", a], ["N"]]})
+        # directed: reuse — the same initialize envelope object dispatched three times, many sessions at once
+        sp = {"client": {"name": "again"}, "version": "2025-06-18", "reuse": True}
+        out.append({"ops": [["I", None, sp, 1], ["I", None, sp, 1], ["I", 0, sp, 1], ["N"], ["D", 1], ["I", 1, sp, 1], ["L", "pop"]]})
+        big = [C] * 40 + [T1] + [["U", k] for k in range(0, 40, 3)] + [T1, ["X", 1], ["N"], ["L", "both"]] + [C] * 40 + [["X", 0], K]
+        out.append({"ops": big})
         if budget == "quick":
             out += list(words(A8, 5)) + list(words(A10, 4)) + list(words(A20, 3))
             nseed, maxlen = 1200, 200
@@ -271,6 +322,11 @@ class Histories(Suite):
         n = len(case["ops"])
         codes = {op[0] for op in case["ops"]}
         tag = "+".join(sorted(codes & {"I", "R", "X", "L"})) or "basic"
+        answers = {st.get("answer") for op, st in zip(case["ops"], o.get("steps", [])) if op[0] == "R" and op[1] is not None}
+        if "error" in answers:
+            tag += "+Rerr"
+        if any(op[0] == "X" and op[1] is None for op in case["ops"]):
+            tag += "+Xdefault"
         return f"len{'<=6' if n <= 6 else ('<=40' if n <= 40 else '<=200')}/{tag}"
 
     def nontrivial(self, case, o):
